@@ -12,6 +12,8 @@ import (
 
 	sdk "github.com/cosmos/cosmos-sdk/types"
 
+	abci "github.com/cometbft/cometbft/abci/types"
+
 	clienttypes "github.com/cosmos/ibc-go/v11/modules/core/02-client/types"
 	channeltypes "github.com/cosmos/ibc-go/v11/modules/core/04-channel/types"
 	channeltypesv2 "github.com/cosmos/ibc-go/v11/modules/core/04-channel/v2/types"
@@ -52,6 +54,7 @@ type Step struct {
 	After    sim.Snap
 	LogStart int
 	Sent     bool
+	Check    *abci.ResponseCheckTx // "checktx" op: the mempool-check response
 }
 
 func NewWorld(t *testing.T, h History) *sim.World {
@@ -211,6 +214,21 @@ func Exec(w *sim.World, no int, op Op) Step {
 		if op.K == "recv" && !sim.ResultIsNoop(st.Res) {
 			w.NoteAck(p, st.Res)
 		}
+	case "checktx":
+		// offer a receive of packet P to the mempool check only (nothing is committed)
+		if len(w.Pkts) == 0 {
+			return st
+		}
+		p := w.Pkts[Pick(len(w.Pkts), op.P)]
+		st.Pkt = p
+		pl := w.Links[p.Link]
+		side := 1 - p.Dir
+		st.Chain = pl.Chain[side]
+		h := ChooseHeight(w, pl, side, op.H, op.Sig)
+		msg := w.BuildRecv(p, h, op.Sig)
+		st.Before = w.Snapshot(st.Chain)
+		st.Check = w.CheckTx(st.Chain, op.Sig, msg)
+		st.After = w.Snapshot(st.Chain)
 	case "replay":
 		// re-submit an earlier relay message verbatim (stale proof and all)
 		var relays []sim.SentMsg
@@ -413,7 +431,7 @@ func GenLifecycle(t *rapid.T, maxOps int, kinds []string, outs []string) History
 				op.TT = rapid.IntRange(1, 60).Draw(t, "tt")
 			}
 			sends++
-		case "recv", "ack", "timeout", "toc":
+		case "recv", "ack", "timeout", "toc", "checktx":
 			// bias toward recent packets
 			if rapid.Bool().Draw(t, "recent") {
 				op.P = sends - 1 - rapid.IntRange(0, 1).Draw(t, "back")
